@@ -438,8 +438,8 @@ BH = 'impl<Endpoint: Ord + Clone> BlockHandler<Endpoint>'
 
 def extra_items(u):
     u.item('packet.rs', "pub type Options<'a>")
-    u.items('block_handler/mod.rs', 'const BLOCK_OPTIONS_MAX_LENGTH', 'const MAXIMUM_UNCOMMITTED_BUFFER_RESERVE_LENGTH',
-            'pub struct BlockState')
+    u.consts('block_handler/mod.rs')
+    u.item('block_handler/mod.rs', 'pub struct BlockState')
     u.raw('pub struct BlockHandler<Endpoint: Ord + Clone> { pub config: BlockHandlerConfig, pub states: StateCache, pub e: Option<Endpoint> }', 'units/blk.py (R24: cache field abstracted)')
     u.impl_fns('block_handler/mod.rs', BH, ['intercept_request', 'intercept_response', 'maybe_handle_request_block1', 'maybe_handle_request_block2', 'maybe_serve_cached_response', 'packet_clone_limited', 'compute_message_size_hack', 'negotiate_block_size_if_necessary'])
 
@@ -458,7 +458,7 @@ def build(repo):
     u.contract((BH, 'compute_message_size_hack'), '''        ensures *final(packet) == *old(packet), r is Err ==> r->Err_0.code is Some,
             opts_encodable(*old(packet)) ==> r is Ok,
             r is Ok ==> r->Ok_0 == overhead_of(*old(packet)) + old(packet).payload@.len() && r->Ok_0 <= usize::MAX / 4''')
-    u.rule('R21:extending_splice', r'extending_splice\(\s*(&mut \w+|\w+),\s*(\w+)\s*\.\.\s*([^,]+),\s*([\w\.]+)\.iter\(\)\.copied\(\),\s*(\w+),?\s*\)',
+    u.rule('R21:extending_splice', r'extending_splice\(\s*(&mut \w+|\w+),\s*(\w+)\s*\.\.\s*([^,]+),\s*([\w\.]+)\.iter\(\)\.copied\(\),\s*((?:[^,()]|\([^()]*\))+?),?\s*\)',
            r'extending_splice_u8(\1, \2, \3, &\4, \5)', 1)
     u.rule('R24:states-entry', r'self\s*\.states\s*\.entry\(request\.deref\(\)\.into\(\)\)\s*\.or_insert\(BlockState::default\(\)\)',
            'states_entry(&mut self.states, request_key(request))', 2)
